@@ -1,5 +1,7 @@
 import Fabio.Driver.Proto
 import Fabio.Model.C15
+import Fabio.Model.C15Cmd
+import Fabio.Model.C15Listen
 import Fabio.Props.C15
 import Fabio.Generated.C15
 namespace Fabio.Driver.C15
@@ -107,12 +109,19 @@ def sourcesH : Handler := fun inp impl => do
       match ds with
       | [] => none
       | d :: rest => if rest.all (· == d) then none else some s)
-  let spec := precOK && equivBad.isNone && !anyPanic
+  -- loading is a function of its inputs: the configuration without any source is what it was before this
+  -- process loaded anything, and a returned Config is not changed by later loads
+  let dflt0 := (ci.getObjValAs? String "dflt0").toOption.getD dflt
+  let again := (ci.getObjValAs? String "combined_again").toOption.getD combined
+  let pureOK := dflt == dflt0 && again == combined
+  let spec := precOK && equivBad.isNone && !anyPanic && pureOK
   let selfEff := setIdx.filterMap (fun s => effAt s s)
   let distinct := Fabio.Props.C15.allDistinct selfEff
   let nontrivial := setIdx.length ≥ 2 && distinct
   let tag :=
     if anyPanic then "panic"
+    else if dflt != dflt0 then "default-changed-by-earlier-load"
+    else if again != combined then "config-changed-by-later-load"
     else if let some s := equivBad then s!"same-value-different-effect-src{s}"
     else if !precOK then s!"precedence-expected-src{setIdx.head?.getD 4}"
     else s!"win{setIdx.head?.getD 4}-of-{setIdx.length}"
@@ -227,6 +236,202 @@ def robustH : Handler := fun inp impl => do
     else "err-other"
   return ({ model := mj, agree := agree, spec := spec, nontrivial := weird, tag := tag } : Verdict).toJson
 
+
+/-! ### c15.cmdline -/
+
+def formalOf (n : Str) : Option Bool :=
+  match Fabio.Generated.C15.flagTable.find? (fun r => r.1 == n) with
+  | some r => some (r.2.1 == "bool")
+  | none => none
+
+def formOf (s : String) : Option Form :=
+  if s == "eq1" then some .eq1 else if s == "eq2" then some .eq2 else if s == "split1" then some .split1
+  else if s == "split2" then some .split2 else if s == "bare1" then some .bare1 else if s == "bare2" then some .bare2
+  else none
+
+def prepassNames : List Str := [S "v", S "version", S "cfg"]
+
+def strsJ (l : List Str) : Json := Json.arr (l.map J).toArray
+def pairsJ (l : List (Str × Str)) : Json := Json.arr (l.map (fun (a, b) => Json.arr #[J a, J b])).toArray
+
+def tokErrName : TokErr → String
+  | .badSyntax _ => "bad-syntax" | .undefined _ => "undefined" | .help => "help"
+  | .needsArg _ => "needs-arg" | .invalidValue _ _ => "invalid-value"
+
+def cmdlineH : Handler := fun inp impl => do
+  let argv ← strArr (← inp.getObjVal? "argv")
+  if (impl.getObjVal? "harness_error").toOption.isSome then
+    return ({ model := Json.null, agree := true, spec := true, nontrivial := false, tag := "harness-skip" } : Verdict).toJson
+  if isPanicJson impl then
+    return ({ model := Json.null, agree := false, spec := false, nontrivial := true, tag := "panic-in-harness" } : Verdict).toJson
+  let intentJ := (inp.getObjVal? "intent").toOption.getD Json.null
+  let intent : Option (List (Str × Str × Form)) := match intentJ with
+    | .null => none
+    | j => (do
+        let a ← j.getArr?
+        a.toList.mapM (fun x => do
+          let p ← strArr x
+          match p with
+          | [n, v, f] => match formOf f with
+            | some fm => pure (S n, S v, fm)
+            | none => throw "form"
+          | _ => throw "triple expected")).toOption
+  let preJ ← impl.getObjVal? "pre"
+  let preOut ← preJ.getObjValAs? String "out"
+  let preRest ← strArr (← preJ.getObjVal? "rest")
+  let prePath ← preJ.getObjValAs? String "path"
+  let direct ← impl.getObjValAs? String "direct"
+  let canon ← impl.getObjValAs? String "canon"
+  let want ← impl.getObjValAs? String "want"
+  -- oracle for `Set`: what the flag's own parser said about each value it was given
+  let acceptJ ← (← impl.getObjVal? "accept").getArr?
+  let acceptTab : List (Str × Str × Bool) := acceptJ.toList.filterMap (fun x =>
+    match x.getArr? with
+    | .ok #[n, v, b] => match n.getStr?, v.getStr?, b.getBool? with
+      | .ok n, .ok v, .ok b => some (S n, S v, b)
+      | _, _, _ => none
+    | _ => none)
+  let known (n v : Str) : Option Bool := (acceptTab.find? (fun r => r.1 == n && r.2.1 == v)).map (·.2.2)
+  -- the model
+  let mpre := parsePre (S "fabio" :: argv.map S)
+  let (mpreOut, mrest, mpath) : String × List Str × Str := match mpre with
+    | .panic _ => ("panic", [], [])
+    | .ok .version => ("version", [], [])
+    | .ok .invalidConfig => ("invalid-config", [], [])
+    | .ok (.ok p) => ("ok", p.rest, p.path)
+  let preAgree := mpreOut == preOut && (mpreOut != "ok" || (mrest == preRest.map S && mpath == S prePath))
+  let mtok := tokenise formalOf (fun n v => (known n v).getD false) mrest []
+  let unknownOracle : Bool := match mtok with
+    | .ok t => t.pairs.any (fun (n, v) => (known n v).isNone)
+    | .error (.invalidValue n v) => (known n v).isNone
+    | .error _ => false
+  let (mtokErr, mpairs, mpos) : String × List (Str × Str) × List Str := match mtok with
+    | .ok t => ("", t.pairs, t.positional)
+    | .error e => (tokErrName e, [], [])
+  let tokJ := (impl.getObjVal? "tok").toOption.getD Json.null
+  let tokAgree : Bool := if mpreOut != "ok" then tokJ.isNull else
+    match tokJ with
+    | .null => false
+    | t =>
+      let terr := (t.getObjValAs? String "err").toOption.getD "?"
+      let tpairs := ((t.getObjVal? "pairs").toOption.bind (fun j => (pairArr j).toOption)).getD []
+      let tpos := ((t.getObjVal? "positional").toOption.bind (fun j => (strArr j).toOption)).getD []
+      !unknownOracle && terr == mtokErr && (mtokErr != "" || (tpairs == mpairs && tpos.map S == mpos))
+  let mj := Json.mkObj [("pre", Json.mkObj [("out", mpreOut), ("rest", strsJ mrest), ("path", J mpath)]),
+                        ("tok", Json.mkObj [("err", mtokErr), ("pairs", pairsJ mpairs), ("positional", strsJ mpos)])]
+  let anyPanic := preOut == "panic" || direct == "panic" || canon == "panic" || want == "panic"
+  -- as typed = as tokenised (both through the real Load)
+  let directOK := direct == "n/a" || canon == "n/a" || direct == canon
+  let agree := preAgree && tokAgree && directOK && !anyPanic
+  -- specification (no model function involved): an argument vector that spells assignments to settable options
+  -- in forms that fit their kinds, with plain values in the two-argument forms, has the effect of `-name=value`
+  let (hyp, excluded) : Bool × Bool := match intent with
+    | none => (false, false)
+    | some xs =>
+      let describes := spell xs == argv.map S
+      let wfAll := xs.all (fun (n, _, f) =>
+        !prepassNames.contains n &&
+        (match formalOf n, f with
+         | some _, .eq1 | some _, .eq2 => true
+         | some false, .split1 | some false, .split2 => true
+         | some true, .bare1 | some true, .bare2 => true
+         | _, _ => false))
+      let bareTrue := xs.all (fun (_, v, f) => (f != .bare1 && f != .bare2) || v == S "true")
+      let plain := xs.all (fun (_, v, f) => (f != .split1 && f != .split2) || decide (preClass v = .other))
+      (describes && wfAll && bareTrue && plain && want != "n/a", describes && wfAll && bareTrue && !plain)
+  let spellOK := !hyp || (direct != "n/a" && direct == want)
+  let spec := !anyPanic && spellOK
+  let tag :=
+    if anyPanic then "panic"
+    else if hyp && !spellOK then "spelling-changes-effect"
+    else if excluded then "excluded-split-value-is-prepass-word"
+    else if mpreOut != "ok" then s!"pre-{mpreOut}"
+    else if mtokErr != "" then s!"tok-{mtokErr}"
+    else if hyp then
+      (match intent with
+       | some xs => if xs.any (fun (_, _, f) => f == .split1 || f == .split2) then "spelled-split" else "spelled-eq-or-bare"
+       | none => "spelled")
+    else if mpath != [] then "cfg-path"
+    else if !mpos.isEmpty then "positional-left"
+    else "free-form"
+  let nontrivial := argv.length ≥ 2 || mpreOut != "ok"
+  return ({ model := mj, agree := agree, spec := spec, nontrivial := nontrivial, tag := tag } : Verdict).toJson
+
+/-! ### c15.listen -/
+
+def handledProtos : List Str := Fabio.Generated.C15.listenProtosHandled.map String.toList
+
+def lerrName : LErr → String
+  | .field k => s!"err-key-{String.ofList k}" | .needAddr => "err-need-addr"
+  | .csNeedsTLSProto => "err-cs-needs-tls-proto" | .protoNeedsCs => "err-proto-needs-cs"
+
+def listenH : Handler := fun inp impl => do
+  let opt ← inp.getObjValAs? String "opt"
+  let value ← inp.getObjValAs? String "value"
+  if (impl.getObjVal? "harness_error").toOption.isSome then
+    return ({ model := Json.null, agree := true, spec := true, nontrivial := false, tag := "harness-skip" } : Verdict).toJson
+  if isPanicJson impl then
+    return ({ model := Json.null, agree := false, spec := false, nontrivial := true, tag := "panic-in-harness" } : Verdict).toJson
+  let out ← impl.getObjValAs? String "out"
+  let listenJ ← (← impl.getObjVal? "listen").getArr?
+  let listen : List (Str × Str × Str) := listenJ.toList.filterMap (fun x =>
+    match strArr x with
+    | .ok [a, p, c] => some (S a, S p, S c)
+    | _ => none)
+  let csNames ← strArr (← impl.getObjVal? "cs_names")
+  let addrJ ← (← impl.getObjVal? "addr_of").getArr?
+  let addrTab : List (Str × Option Str) := addrJ.toList.filterMap (fun x =>
+    match x.getArr? with
+    | .ok #[a, b] => match a.getStr? with
+      | .ok a => some (S a, (optStr b).map S)
+      | _ => none
+    | _ => none)
+  let fieldJ ← (← impl.getObjVal? "field_ok").getArr?
+  let fieldTab : List (Str × Str × Bool) := fieldJ.toList.filterMap (fun x =>
+    match x.getArr? with
+    | .ok #[k, v, b] => match k.getStr?, v.getStr?, b.getBool? with
+      | .ok k, .ok v, .ok b => some (S k, S v, b)
+      | _, _, _ => none
+    | _ => none)
+  let E : ListenEnv :=
+    { addrOf := fun a => ((addrTab.find? (fun r => r.1 == a)).map (·.2)).join
+      fieldOK := fun k v => ((fieldTab.find? (fun r => r.1 == k && r.2.1 == v)).map (·.2.2)).getD false
+      csNames := csNames.map S }
+  let cs := S value
+  let outside := outsideUnquoteFragment cs
+  -- the model: kvslice parse, then the listener rules; `ui.addr` takes exactly one listener, and none when empty
+  let isUI := opt == "ui.addr"
+  let parsed := parseKVSlice unquote cs
+  let (mout, mlist, mtag, twoAddr) : String × List (Str × Str × Str) × String × Bool := match parsed with
+    | .panic _ => ("panic", [], "model-panic", false)
+    | .ok (.error _) => if isUI && cs.isEmpty then ("cfg", [([], [], [])], "ui-empty", false) else ("err", [], "err-kvslice", false)
+    | .ok (.ok ms) =>
+      let two := ms.any (fun m => (addrKeys m).length > 1)
+      if isUI && cs.isEmpty then ("cfg", [([], [], [])], "ui-empty", false)
+      else if isUI && ms.length != 1 then ("err", [], "err-ui-count", two)
+      else match parseListenersM E ms with
+        | .error e => ("err", [], lerrName e, two)
+        | .ok ls => ("cfg", ls.map (fun l => (l.addr, l.proto, l.cs)), s!"accepted{ls.length}", two)
+  let mj := Json.mkObj [("out", mout), ("listen", Json.arr (mlist.map (fun (a, p, c) => Json.arr #[J a, J p, J c])).toArray)]
+  let dropAddr (l : List (Str × Str × Str)) := l.map (fun (_, p, c) => (p, c))
+  let agree :=
+    if out == "panic" then false
+    else if outside then true
+    else mout == out && (out != "cfg" || (if twoAddr then dropAddr mlist == dropAddr listen else mlist == listen))
+  -- specification on the implementation's own answer: an accepted listener has an address and a protocol that
+  -- `main.startServers` has a case for (case literals regenerated from main.go)
+  let runnable := listen.all (fun (a, p, _) => (isUI && cs.isEmpty) || (!a.isEmpty && handledProtos.contains p))
+  let spec := out != "panic" && (out != "cfg" || runnable)
+  let tag :=
+    if out == "panic" then "panic"
+    else if out == "cfg" && !runnable then "accepted-listener-cannot-be-started"
+    else if outside then "outside-unquote-fragment"
+    else if twoAddr then s!"two-address-keys-{mtag}"
+    else mtag
+  let nontrivial := cs.contains ';' || cs.contains ','
+  return ({ model := mj, agree := agree, spec := spec, nontrivial := nontrivial, tag := tag } : Verdict).toJson
+
 def streams : List (String × Handler) :=
-  [("c15.flagtable", flagtableH), ("c15.sources", sourcesH), ("c15.kvslice", kvsliceH), ("c15.robust", robustH)]
+  [("c15.flagtable", flagtableH), ("c15.sources", sourcesH), ("c15.kvslice", kvsliceH), ("c15.robust", robustH),
+   ("c15.cmdline", cmdlineH), ("c15.listen", listenH)]
 end Fabio.Driver.C15
